@@ -309,6 +309,10 @@ pub fn gen_case_sized(c: &mut Chooser, op: &str, prop: &str, small: bool) -> Cas
         } else {
             gen_puppet_spec(c, allow_late, modes, fins)
         };
+        if !credit && s.mode == Mode::PullSync && c.chance(1, 6) {
+            // a source that answers every Pull with a batch of two
+            s.per_pull = 2;
+        }
         if !credit && c.chance(1, 5) {
             // the end follows the last datum in the same call (not in the C14 environment, whose
             // upstreams answer a Pull with one Data *or* their end)
